@@ -192,3 +192,51 @@ def run(ctx):
     r.assumptions += ['ServerState limit fields are sane: min_sampling_interval_ms and min_publishing_interval_ms are not NaN, max_monitored_item_queue_size >= 1, 1 <= default_keep_alive_count <= max_keep_alive_count',
                       'u32 overflow of keep_alive x 3 needs max_keep_alive_count > u32::MAX / 3 (configuration), not decided here']
     r.floor('C23', 'obligations', len(r.obls), 12)
+    installed_values(ctx)
+
+
+def installed_values(ctx, rule='installed-values-are-revised'):
+    """what is installed on the subscription is the revised tuple, component by component: Subscription::new(.., .0, .2, .1, ..)
+    in CreateSubscription and set_publishing_interval(.0) / set_max_keep_alive_count(.1) / set_max_lifetime_count(.2) in
+    ModifySubscription, all taken from revise_subscription_values(server_state, requested values of this request).
+    (Subscription::tick panics on a publishing interval <= 0, so this is also a premise of C33.)"""
+    import re
+    from ..facts import fmt_sym
+    r, db = ctx.r, ctx.db
+    S = 'server::services::subscription::SubscriptionService::'
+    REV = r'^SubscriptionService::revise_subscription_values\(&.*server_state.*, \(\*request\(_\d+\)\)\.requested_publishing_interval, \(\*request\(_\d+\)\)\.requested_max_keep_alive_count, \(\*request\(_\d+\)\)\.requested_lifetime_count\)\.%d$'
+    n = 0
+    b = db.body(S + 'create_subscription')
+    if b is None:
+        r.lost(rule, 'create', 'create_subscription not found')
+    else:
+        F = ctx.facts(b)
+        news = [c for c in b.calls() if c.callee.endswith('subscription::Subscription::new')]
+        if len(news) != 1 or len(news[0].args) < 6:
+            r.lost(rule, 'create:new', 'Subscription::new call not recognised')
+        else:
+            a = [fmt_sym(b, F.sym_operand(x)) for x in news[0].args]
+            want = {3: 0, 4: 2, 5: 1}    # publishing interval, lifetime count, keep alive count
+            bad = [i for i, comp in want.items() if not re.match(REV % comp, a[i])]
+            n += 3
+            if bad:
+                r.fail(rule, 'create', 'CreateSubscription installs %s as argument %s of Subscription::new instead of the revised value' % (a[bad[0]][:80], bad[0]), loc=news[0].loc)
+            else:
+                r.ok(rule, 'create', 'Subscription::new receives the revised interval, lifetime and keep-alive counts', loc=news[0].loc)
+    b = db.body(S + 'modify_subscription')
+    if b is None:
+        r.lost(rule, 'modify', 'modify_subscription not found')
+    else:
+        F = ctx.facts(b)
+        for setter, comp in (('set_publishing_interval', 0), ('set_max_keep_alive_count', 1), ('set_max_lifetime_count', 2)):
+            cs = [c for c in b.calls() if c.callee.endswith('Subscription::' + setter)]
+            n += 1
+            if len(cs) != 1:
+                r.fail(rule, 'modify:' + setter, 'expected exactly one %s call in ModifySubscription, found %d' % (setter, len(cs)), loc=b.loc); continue
+            v = fmt_sym(b, F.sym_operand(cs[0].args[1]))
+            if re.match(REV % comp, v):
+                r.ok(rule, 'modify:' + setter, '%s receives component .%d of the revised tuple' % (setter, comp), loc=cs[0].loc)
+            else:
+                r.fail(rule, 'modify:' + setter, 'ModifySubscription installs %s with %s instead of the revised value (the response still reports the revised one)' % (v[:90], setter), loc=cs[0].loc)
+    r.count('installed_value_sites', n)
+    r.floor(rule, 'installed_value_sites', n, 6)
